@@ -7,6 +7,6 @@ CONSTANTS
   BSet = {1, 2}
   Costs = {1, 2}
   MaxCalls = 3
-INVARIANTS SuccessSound DegenerateIsNotSound Bounded FalseOnlyExhausted FirstUsableReturned PruneRule
+INVARIANTS SuccessSound DegenerateNeverSucceeds Bounded FalseOnlyExhausted FirstUsableReturned PruneRule
            OrdSound OrdSorted OrdQueueSorted OrdNothingUsableDiscarded OrdAtMostTwoBatches
            OrdFalseOnlyAfterFreshBatch OrdFreshExitOnlyDegenerate EmitDone
